@@ -1,0 +1,110 @@
+//! Verification hooks (feature `verif-hooks`)
+//!
+//! Re-exports of crate-private receiver items and three observation
+//! taps. The taps record what the receiver computed; nothing the
+//! receiver uses is computed here.
+
+use std::cell::RefCell;
+
+pub use super::assembler::verif_hooks as assembler_hooks;
+pub use super::assembler::Assembler;
+pub use super::combiner::verif_hooks as combiner;
+pub use super::framing::verif_hooks as framing;
+pub use super::framing::Framer;
+
+pub const MAX_MESSAGE_LENGTH: usize = super::assembler::MAX_MESSAGE_LENGTH;
+pub const MAX_INTERBURST_SYMBOLS: u64 = super::assembler::MAX_INTERBURST_SYMBOLS;
+pub const MAX_HISTORY_DURATION: u64 = super::assembler::MAX_HISTORY_DURATION;
+pub const MAX_MESSAGE_DURATION_SECS: u64 = super::SameReceiver::MAX_MESSAGE_DURATION_SECS;
+pub const BAUD_HZ: f32 = super::waveform::BAUD_HZ;
+pub const FSK_MARK_HZ: f32 = super::waveform::FSK_MARK_HZ;
+pub const FSK_SPACE_HZ: f32 = super::waveform::FSK_SPACE_HZ;
+pub const PREAMBLE: u8 = super::waveform::PREAMBLE;
+pub const PREAMBLE_SYNC_WORD: u32 = super::waveform::PREAMBLE_SYNC_WORD;
+
+pub fn samples_per_symbol(fs: u32) -> f32 {
+    super::waveform::samples_per_symbol(fs)
+}
+
+/// T1: one record per symbol seen by the squelch
+#[derive(Clone, Debug, PartialEq, Eq)]
+pub struct SquelchTap {
+    pub bit: bool,
+    pub errors: u32,
+    pub open_ok: bool,
+    pub close_ok: bool,
+}
+
+/// T2: one record per byte-clock tick
+#[derive(Clone, Debug, PartialEq, Eq)]
+pub struct ByteTap {
+    pub symbol_count: u64,
+    pub is_resync: bool,
+    pub byte: u8,
+}
+
+/// T3: one record per symbol tick of `process()`
+#[derive(Clone, Debug, PartialEq, Eq)]
+pub struct TickTap {
+    pub input_sample_counter: u64,
+    pub symbol_count: u64,
+    pub link_state: super::LinkState,
+}
+
+#[derive(Clone, Debug, Default)]
+pub struct Taps {
+    pub squelch: Vec<SquelchTap>,
+    pub bytes: Vec<ByteTap>,
+    pub ticks: Vec<TickTap>,
+}
+
+thread_local! {
+    static TAPS: RefCell<Option<Taps>> = RefCell::new(None);
+}
+
+/// Start recording on this thread (discarding anything recorded before)
+pub fn taps_start() {
+    TAPS.with(|t| *t.borrow_mut() = Some(Taps::default()));
+}
+
+/// Stop recording on this thread and return what was recorded
+pub fn taps_take() -> Taps {
+    TAPS.with(|t| t.borrow_mut().take()).unwrap_or_default()
+}
+
+pub(crate) fn tap_squelch(bit: bool, errors: u32, open_ok: bool, close_ok: bool) {
+    TAPS.with(|t| {
+        if let Some(taps) = t.borrow_mut().as_mut() {
+            taps.squelch.push(SquelchTap {
+                bit,
+                errors,
+                open_ok,
+                close_ok,
+            });
+        }
+    });
+}
+
+pub(crate) fn tap_byte(symbol_count: u64, is_resync: bool, byte: u8) {
+    TAPS.with(|t| {
+        if let Some(taps) = t.borrow_mut().as_mut() {
+            taps.bytes.push(ByteTap {
+                symbol_count,
+                is_resync,
+                byte,
+            });
+        }
+    });
+}
+
+pub(crate) fn tap_tick(input_sample_counter: u64, symbol_count: u64, link_state: &super::LinkState) {
+    TAPS.with(|t| {
+        if let Some(taps) = t.borrow_mut().as_mut() {
+            taps.ticks.push(TickTap {
+                input_sample_counter,
+                symbol_count,
+                link_state: link_state.clone(),
+            });
+        }
+    });
+}
